@@ -279,9 +279,14 @@ func (g *Gen) alloc(x *ssa.Alloc) {
 		return
 	}
 	g.nfresh++
-	r := fmt.Sprintf("%d", 1000000000+g.nfresh)
+	r := g.newRefNumeral()
 	fr.val[x] = r
 	g.storeObj(r, et, g.zeroValue(et))
+	if g.callPrivate(x) {
+		// the object's address is only handed to callees whose contracts frame what they write: a
+		// call that may write "everything" (uncontracted, assigns *) cannot reach it
+		g.privObjs = append(g.privObjs, g.objTargets(r, et))
+	}
 	for _, oa := range g.w.DB.OnAlloc {
 		if types.TypeString(et, nil) == oa.Type {
 			if gv, ok := g.w.DB.Ghosts[oa.Ghost]; ok {
@@ -348,7 +353,7 @@ func (g *Gen) makeSlice(x *ssa.MakeSlice) {
 	g.safety("makeslice", fmt.Sprintf("(and %s %s)", g.le(g.idx(0), ln, true), g.le(ln, cp, true)), "make: 0 <= len <= cap")
 	et := x.Type().Underlying().(*types.Slice).Elem()
 	g.nfresh++
-	base := fmt.Sprintf("%d", 1000000000+g.nfresh)
+	base := g.newRefNumeral()
 	c, inner := g.memComp(et)
 	g.setComp(c, fmt.Sprintf("(store %s %s ((as const %s) %s))", g.heapGet(c), base, inner, g.zeroValue(et)))
 	fr.val[x] = g.define(x.Name(), "Slice", fmt.Sprintf("(mk-slice %s %s %s %s)", base, g.idx(0), ln, cp))
@@ -806,7 +811,17 @@ func (g *Gen) havocAll(guard string) {
 		if strings.HasPrefix(n, "L_") || strings.HasPrefix(n, "GH_") {
 			continue
 		}
-		g.cur[n] = g.fresh("H_"+n+"@havoc", g.comps[n])
+		old := g.heapGet(n)
+		nv := g.fresh("H_"+n+"@havoc", g.comps[n])
+		// objects of this function that the callee cannot reach keep their contents
+		for _, tgs := range g.privObjs {
+			for _, tg := range tgs {
+				if tg.comp == n && !tg.whole {
+					nv = fmt.Sprintf("(store %s %s (select %s %s))", nv, tg.ref, old, tg.ref)
+				}
+			}
+		}
+		g.cur[n] = nv
 	}
 	g.assumptions["uncontracted callees do not write ghost state (ghost components are written only by contracted calls)"] = true
 }
@@ -929,7 +944,7 @@ func (g *Gen) appendBuiltin(in *ssa.Call, cc *ssa.CallCommon) {
 	h := g.heapGet(c)
 	fits := g.le(nl, fmt.Sprintf("(cap %s)", a), true)
 	g.nfresh++
-	nb := fmt.Sprintf("%d", 1000000000+g.nfresh)
+	nb := g.newRefNumeral()
 	ncap := g.fresh("appcap", g.idxSort())
 	g.assumeAlways(fmt.Sprintf("(and %s %s)", g.le(nl, ncap, true), g.lt(ncap, g.idx(281474976710656), true)))
 	r := g.define("app", "Slice", fmt.Sprintf("(ite %s (mk-slice (base %s) (off %s) %s (cap %s)) (mk-slice %s %s %s %s))", fits, a, a, nl, a, nb, g.idx(0), nl, ncap))
